@@ -103,14 +103,6 @@ def _c12_no_backtracking(rec):
 
 
 # ----------------------------------------------------------------------------------------- C14
-@classifier("sub-textual-instantiation-ignores-precedence")
-def _c14_precedence(rec):
-    """Replacement templates are instantiated by pasting the printed binding into the template text; a binding
-    whose precedence is lower than the hole's context (`{{x}} * 2` with x = `a + b`) denotes another tree."""
-    d = rec.get("detail") or {}
-    return rec.get("kind") == "tree_differs_from_reference_substitution" and d.get("explained_by_textual_instantiation") is True
-
-
 def _c14_match_lines(rec):
     """(text before the match on its line, matched text) for every applied match of a C14 record."""
     d = rec.get("detail") or {}
@@ -332,6 +324,58 @@ def _c16_higher_order(rec):
                 for c in ast.walk(n)):
             return True
     return False
+
+
+_VALUE_BUILTINS = {"str", "repr", "len", "list", "tuple", "set", "frozenset", "sorted", "bool", "iter", "format", "ascii", "dict", "sum", "min", "max", "any", "all", "hash", "abs",
+                   "int", "float", "reversed", "enumerate", "zip", "print"}
+
+
+def _only_implicit_calls(stmt):
+    """An expression statement that calls nothing by name except value builtins without keywords (and, as in `print if x else 0`, may merely
+    mention them), and that mentions at least one name of the program: whatever it does, it does through the special methods of that object."""
+    import builtins
+
+    if not isinstance(stmt, ast.Expr):
+        return False
+    program_names = 0
+    for n in ast.walk(stmt):
+        if isinstance(n, (ast.Lambda, ast.Await, ast.Yield, ast.YieldFrom, ast.NamedExpr)):
+            return False
+        if isinstance(n, ast.Call) and not (isinstance(n.func, ast.Name) and n.func.id in _VALUE_BUILTINS and not n.keywords
+                                            and not any(isinstance(a, ast.Name) and a.id in vars(builtins) for a in n.args)):
+            return False
+        if isinstance(n, ast.Name) and isinstance(n.ctx, ast.Load) and n.id not in vars(builtins):
+            program_names += 1
+    return program_names > 0
+
+
+def _expr_statements(tree):
+    import collections
+
+    return collections.Counter(ast.dump(n) for n in ast.walk(tree) if isinstance(n, ast.Expr)), {ast.dump(n): n for n in ast.walk(tree) if isinstance(n, ast.Expr)}
+
+
+@classifier("pointless-operation-on-an-object-with-special-methods")
+def _c16_user_object(rec):
+    """has_side_effect regards reading a name, an attribute or an item, operators, comparisons, truth tests, formatting and value builtins (str, len,
+    list, ...) as free of effects whatever the operand is: a statement such as `obj.prop`, `obj + 1`, `obj[0]`, `str(obj)` or `f'{obj}'` is deleted as
+    pointless although the property or special method of a user-defined object runs code."""
+    rule, before, after = _step(rec)
+    if rec.get("kind") == "no_side_effect_but_statement_observable":
+        tree = _parse("def f():\n" + "".join("    " + l + "\n" for l in (rec.get("input") or "").split("\n")))
+        if tree is None or not tree.body[0].body:
+            return False
+        inside = [n for n in ast.walk(tree.body[0].body[0]) if isinstance(n, ast.Expr)]  # the statement itself, or the statements of the if it stands in
+        return bool(inside) and all(_only_implicit_calls(n) for n in inside)
+    if rec.get("kind") != "deleted_code_was_observable" or rule != "fixes.delete_pointless_statements":
+        return False
+    tb, ta = _parse(before or ""), _parse(after or "")
+    if tb is None or ta is None:
+        return False
+    cb, nodes = _expr_statements(tb)
+    ca, _ = _expr_statements(ta)
+    deleted = [nodes[k] for k in (cb - ca)]
+    return bool(deleted) and all(_only_implicit_calls(n) for n in deleted)
 
 
 # ----------------------------------------------------------------------------------------- C04
